@@ -44,7 +44,7 @@ func c10LargeCases(tier string) []c10LargeCase {
 					if k%2 == 0 {
 						items[k] = c10Item{v: system.Integer(k / 2), cls: fmt.Sprint(k / 2), typ: "Integer"}
 					} else {
-						items[k] = c10Item{v: system.MustParseDecimal(fmt.Sprintf("%d.0", k/2)), cls: fmt.Sprint(k / 2), typ: "Decimal"}
+						items[k] = c10Item{v: lib.Dec(fmt.Sprintf("%d.0", k/2)), cls: fmt.Sprint(k / 2), typ: "Decimal"}
 					}
 				case "late-dup":
 					items[k] = c10Item{v: system.Integer(k), cls: fmt.Sprint(k), typ: "Integer"}
